@@ -1,0 +1,244 @@
+//go:build verif
+
+// Contracts for the fvc verification-condition generator in /verif (comment-only file; it adds no
+// code to the package and is only seen with -tags verif).
+//
+// Property C17 -- idempotency keys: the handler runs at most once, everyone gets the same answer.
+//
+// How the property is carried (sequential contracts + one lemma about the critical section):
+//   * c.Next() of a keyed, non-bypassed request is only reached with the key's lock held, after a
+//     lookup made UNDER THE LOCK found nothing (atcall only-on-miss-under-lock). Acquiring the lock
+//     forgets everything known about the stored entry of that key (Locker.Lock havocs it: other
+//     requests ran while we waited), so the first, unlocked lookup cannot justify the call.
+//   * a handler that returned nil leads to Storage.Set(key, marshal(status, body, kept headers),
+//     cfg.Lifetime) while the lock is still held, or to an error result (success-is-stored,
+//     atcall stored-under-lock); the lock is released on every path (lock-released).
+//   Lemma (not mechanised, interleavings): two executions of the section for one key are serialised
+//   by the Locker; the second one finds the entry written by the first unless it expired or Set
+//   failed, hence runs no handler. So per key and lifetime at most one handler completes successfully.
+//   * a request answered from the store writes exactly the stored status, body and header values
+//     (New$1: hit-*), nothing is stored or replayed for other keys (other-keys-untouched).
+
+package idempotency
+
+//@ props C17
+
+// ---------------------------------------------------------------------------------------------
+// The stored form of a response. ASSUMED: msgp round trip -- what UnmarshalMsg reads from the bytes
+// MarshalMsg produced are the same status, body and header lists (all values, in order).
+//   decStatus/decBody          status and body encoded in s
+//   decHas(s,h)/decCnt/decHdr  header h is present / number of its values / its i-th value
+// ---------------------------------------------------------------------------------------------
+//@ fn decStatus(s string) int
+//@ fn decBody(s string) string
+//@ fn decHas(s string, h string) bool
+//@ fn decCnt(s string, h string) int
+//@ fn decHdr(s string, h string, i int) string
+
+//@ macro codes(z, s) = z.StatusCode == decStatus(s) && str(z.Body) == decBody(s) && forallS(h, indom(z.Headers, h) <==> decHas(s, h)) && forallS(h, decHas(s, h) ==> len(z.Headers[h]) == decCnt(s, h) && forall(i, 0, decCnt(s, h), z.Headers[h][i] == decHdr(s, h, i)))
+
+//@ func (*response).UnmarshalMsg assumed
+//@   modifies fields(z), heap(MD_string_LJstring), heap(MV_string_LJstring), heap(E_string), heap(E_uint8)
+//@   ensures result1 == nil ==> z.Headers != nil && codes(z, old(str(bts)))
+//@ func (*response).MarshalMsg assumed pure
+//@   ensures result1 == nil ==> codes(z, str(result0))
+
+// ---------------------------------------------------------------------------------------------
+// Locker (interface of this package). Ghost lockHeld[l][k]: this activation holds key k of locker l.
+// Waiting for the lock is where duplicates of the same key interleave: whatever was known about the
+// stored entry of that key is forgotten when Lock returns (entries of other keys are not modelled as
+// changing). A failed Lock holds nothing.
+// ---------------------------------------------------------------------------------------------
+//@ ghost lockHeld map[ref]map[string]bool
+//@ func Locker.Lock(recv, key) assumed
+//@   requires not-reentrant: !lockHeld[recv][key]
+//@   modifies lockHeld, stHas, stVal
+//@   ensures result == nil ==> lockHeld == old(lockHeld)[recv := old(lockHeld)[recv][key := true]]
+//@   ensures result != nil ==> lockHeld == old(lockHeld)
+//@   ensures interference-on-this-key-only: forallI(s, forallS(k, k != key ==> stHas[s][k] == old(stHas[s][k]) && stVal[s][k] == old(stVal[s][k])))
+//@ func Locker.Unlock(recv, key) assumed
+//@   requires held-by-caller: lockHeld[recv][key]
+//@   modifies lockHeld
+//@   ensures lockHeld == old(lockHeld)[recv := old(lockHeld)[recv][key := false]]
+
+// Config hooks: deterministic functions of their argument.
+//@ fn keyErr(f ref, k string) ref
+//@ func Config.Next assumed pure
+//@ func Config.KeyHeaderValidate assumed pure
+//@   defines result == keyErr(fnvalue, arg0)
+
+// ---------------------------------------------------------------------------------------------
+// maybeWriteCachedResponse (New$1): look the key up and, if a response is stored, replay it.
+// Response side (ghosts of fiber_ctx.spec / mw_C17.spec): sentStatus, sentBody, hdrCnt/hdrVal -- the status,
+// body and header value lists of the response; their values at entry are whatever ran before left there.
+// "Same answer" is stated on the resulting response, not on what the replay adds:
+//   hit-status, hit-body, hit-headers-same-as-original   the response equals the stored one
+//   hit-headers-all-values-in-order                       every stored value is added, in order (weaker)
+// KNOWN TO FAIL on the unchanged code (genuine, the replay merges into the response instead of replacing it):
+//   hit-headers-same-as-original  a header already present is duplicated  (replay/known/c17_dupheaders_test.go)
+//   hit-body (empty stored body)  a body already present is kept          (replay/known/c17_emptybody_test.go)
+// ---------------------------------------------------------------------------------------------
+//@ macro stored(k) = stVal[cfg.Storage][k]
+//@ macro wroteNothing() = sentStatus == old(sentStatus) && sentBody == old(sentBody) && hdrCnt == old(hdrCnt) && hdrVal == old(hdrVal)
+//@ macro appendedStored(k) = forallS(h, decHas(stored(k), h) ==> hdrCnt[h] == old(hdrCnt[h]) + decCnt(stored(k), h) && forall(i, 0, decCnt(stored(k), h), hdrVal[h][old(hdrCnt[h]) + i] == decHdr(stored(k), h, i)) && forall(j, 0, old(hdrCnt[h]), hdrVal[h][j] == old(hdrVal[h][j])))
+//@ macro identicalToStored(k) = forallS(h, decHas(stored(k), h) ==> hdrCnt[h] == decCnt(stored(k), h) && forall(i, 0, decCnt(stored(k), h), hdrVal[h][i] == decHdr(stored(k), h, i)))
+
+//@ func New$1
+//@   loop 1
+//@     invariant visited-appended: forallS(h, seen(h) ==> indom(res.Headers, h) && hdrCnt[h] == old(hdrCnt[h]) + len(res.Headers[h]) && forall(i, 0, len(res.Headers[h]), hdrVal[h][old(hdrCnt[h]) + i] == res.Headers[h][i]) && forall(j, 0, old(hdrCnt[h]), hdrVal[h][j] == old(hdrVal[h][j])))
+//@     invariant unvisited-untouched: forallS(h, !seen(h) ==> hdrCnt[h] == old(hdrCnt[h]) && hdrVal[h] == old(hdrVal[h]))
+//@   loop 2
+//@     invariant others-visited: forallS(h, h != header && seen(h) ==> indom(res.Headers, h) && hdrCnt[h] == old(hdrCnt[h]) + len(res.Headers[h]) && forall(i, 0, len(res.Headers[h]), hdrVal[h][old(hdrCnt[h]) + i] == res.Headers[h][i]) && forall(j, 0, old(hdrCnt[h]), hdrVal[h][j] == old(hdrVal[h][j])))
+//@     invariant others-unvisited: forallS(h, !seen(h) ==> hdrCnt[h] == old(hdrCnt[h]) && hdrVal[h] == old(hdrVal[h]))
+//@     invariant this-header-visited: seen(header) && indom(res.Headers, header) && vals == res.Headers[header]
+//@     invariant index-in-range: rangeindex < len(vals)
+//@     invariant this-header-count: hdrCnt[header] == old(hdrCnt[header]) + rangeindex + 1
+//@     invariant this-header-values-so-far: forall(i, 0, rangeindex + 1, hdrVal[header][old(hdrCnt[header]) + i] == vals[i])
+//@     invariant this-header-earlier-values-kept: forall(j, 0, old(hdrCnt[header]), hdrVal[header][j] == old(hdrVal[header][j]))
+//@   ensures hit-only-if-stored: result0 ==> stHas[cfg.Storage][key]
+//@   ensures miss-means-absent: !result0 && result1 == nil ==> !stHas[cfg.Storage][key]
+//@   ensures miss-or-lookup-error-writes-nothing: !result0 ==> wroteNothing()
+//@   ensures hit-status: result0 && result1 == nil ==> sentStatus == decStatus(stored(key))
+//@   ensures hit-body: result0 && result1 == nil ==> sentBody == decBody(stored(key))
+//@   ensures hit-headers-all-values-in-order: result0 ==> appendedStored(key)
+//@   ensures hit-headers-same-as-original: result0 ==> identicalToStored(key)
+//@   ensures hit-adds-no-other-header: result0 ==> forallS(h, !decHas(stored(key), h) ==> hdrCnt[h] == old(hdrCnt[h]) && hdrVal[h] == old(hdrVal[h]))
+//@   ensures store-only-expires: stVal == old(stVal) && forallI(s, forallS(k, stHas[s][k] ==> old(stHas[s][k])))
+//@   ensures never-runs-handler: nextCalls == old(nextCalls)
+
+// The handler calls New$1 through the variable maybeWriteCachedResponse; the engine resolves such a call
+// by the name of the variable, so the clauses proved for New$1 above are repeated here (ASSUMED copy).
+// Bookkeeping ghosts (the engine cannot name tuple results with last()):
+//   lookups  number of lookups made by this activation,  lastHit / lastErr  results of the latest one.
+//@ ghost lookups int
+//@ ghost lastHit bool
+//@ ghost lastErr bool
+//@ func var maybeWriteCachedResponse assumed
+//@   modifies stHas, sentStatus, sentBody, hdrCnt, hdrVal, lookups, lastHit, lastErr
+//@   ensures bookkeeping: lookups == old(lookups) + 1 && lastHit == result0 && lastErr == (result1 != nil)
+//@   ensures hit-only-if-stored: result0 ==> stHas[cfg.Storage][key]
+//@   ensures miss-means-absent: !result0 && result1 == nil ==> !stHas[cfg.Storage][key]
+//@   ensures miss-or-lookup-error-writes-nothing: !result0 ==> wroteNothing()
+//@   ensures hit-status: result0 && result1 == nil ==> sentStatus == decStatus(stored(key))
+//@   ensures hit-headers-all-values-in-order: result0 ==> appendedStored(key)
+//@   ensures hit-adds-no-other-header: result0 ==> forallS(h, !decHas(stored(key), h) ==> hdrCnt[h] == old(hdrCnt[h]) && hdrVal[h] == old(hdrVal[h]))
+//@   ensures store-only-expires: forallI(s, forallS(k, stHas[s][k] ==> old(stHas[s][k])))
+
+// ---------------------------------------------------------------------------------------------
+// The handler (New$2) and its deferred unlock (New$2$1).
+// ---------------------------------------------------------------------------------------------
+//@ macro reqKey(c) = reqHeader(c, cfg.KeyHeader, epoch)
+//@ macro bypassed() = called(Config.Next) && last(Config.Next)
+//@ macro passthrough(c) = bypassed() || reqKey(c) == ""
+
+//@ func New$2$1
+//@   requires holds-the-key: lockHeld[cfg.Lock][key]
+//@   modifies lockHeld
+//@   ensures released: lockHeld == old(lockHeld)[cfg.Lock := old(lockHeld)[cfg.Lock][key := false]]
+
+//@ func New$2
+//@   requires fresh-activation: nextCalls == 0 && lookups == 0 && forallS(k, !lockHeld[cfg.Lock][k])
+//@   loop 1
+//@     invariant visited-in-domain: forallS(x, seen(x) ==> indom(headers, x))
+//@     invariant kept-so-far: forallS(x, indom(res.Headers, x) <==> seen(x) && indom(keepResponseHeadersMap, lower(x)))
+//@     invariant kept-values: forallS(x, indom(res.Headers, x) ==> res.Headers[x] == headers[x])
+//@     invariant fresh-map: res.Headers != headers && res.Headers != nil
+//@   atcall @fiber.Ctx.Next: only-on-miss-under-lock: passthrough(c) || (lookups >= 1 && !lastHit && !lastErr && lockHeld[cfg.Lock][reqKey(c)] && !stHas[cfg.Storage][reqKey(c)])
+//@   atcall @fiber.Ctx.Next: at-most-once: nextCalls == 0
+//@   atcall @fiber.Ctx.Next: key-was-validated: passthrough(c) || keyErr(cfg.KeyHeaderValidate, reqKey(c)) == nil
+//@   atcall Locker.Lock: locks-the-request-key: recv == cfg.Lock && key == reqKey(c) && !passthrough(c)
+//@   atcall (*response).MarshalMsg: status-of-this-execution: z.StatusCode == rStatus(ctxResp(c), epochNow)
+//@   atcall (*response).MarshalMsg: body-of-this-execution: str(z.Body) == rBody(ctxResp(c), epochNow)
+//@   atcall (*response).MarshalMsg: keep-all-when-unconfigured: cfg.KeepResponseHeaders == nil ==> z.Headers == headers
+//@   atcall (*response).MarshalMsg: keep-exactly-the-configured: cfg.KeepResponseHeaders != nil ==> forallS(x, indom(z.Headers, x) <==> indom(headers, x) && indom(keepResponseHeadersMap, lower(x)))
+//@   atcall (*response).MarshalMsg: kept-with-all-values: cfg.KeepResponseHeaders != nil ==> forallS(x, indom(z.Headers, x) ==> z.Headers[x] == headers[x])
+//@   atcall @fiber.Storage.Set: stored-under-lock: recv == cfg.Storage && key == reqKey(c) && lockHeld[cfg.Lock][key]
+//@   atcall @fiber.Storage.Set: only-a-successful-execution: nextCalls == 1 && last(@fiber.Ctx.Next) == nil
+//@   atcall @fiber.Storage.Set: for-the-configured-lifetime: exp == cfg.Lifetime
+//@   atcall @fiber.Storage.Set: the-marshalled-response: val == bs && codes(res, str(val))
+//@   ensures passthrough-untouched: passthrough(c) ==> nextCalls == 1 && result == last(@fiber.Ctx.Next) && stHas == old(stHas) && stVal == old(stVal) && lookups == 0 && wroteNothing()
+//@   ensures invalid-key-rejected: !passthrough(c) && keyErr(cfg.KeyHeaderValidate, reqKey(c)) != nil ==> result != nil && nextCalls == 0 && lookups == 0 && stHas == old(stHas) && stVal == old(stVal)
+//@   ensures lookup-failure-is-error-without-handler: lookups >= 1 && lastErr ==> result != nil && nextCalls == 0
+//@   ensures lock-failure-is-error-without-handler: called(Locker.Lock) && last(Locker.Lock) != nil ==> result != nil && nextCalls == 0
+//@   ensures answered-from-store-without-handler: lookups >= 1 && lastHit ==> nextCalls == 0 && stHas[cfg.Storage][reqKey(c)]
+//@   ensures replay-status: lookups >= 1 && lastHit && result == nil ==> sentStatus == decStatus(stored(reqKey(c)))
+//@   ensures replay-headers-all-values-in-order: lookups >= 1 && lastHit ==> appendedStored(reqKey(c))
+//@   ensures handler-at-most-once: nextCalls <= 1
+//@   ensures handler-error-returned-not-stored: !passthrough(c) && nextCalls == 1 && last(@fiber.Ctx.Next) != nil ==> result == last(@fiber.Ctx.Next) && !called(@fiber.Storage.Set)
+//@   ensures success-is-stored: !passthrough(c) && nextCalls == 1 && last(@fiber.Ctx.Next) == nil && result == nil ==> stHas[cfg.Storage][reqKey(c)] && decStatus(stored(reqKey(c))) == rStatus(ctxResp(c), epochNow) && decBody(stored(reqKey(c))) == rBody(ctxResp(c), epochNow)
+//@   ensures store-failure-is-error: called(@fiber.Storage.Set) && last(@fiber.Storage.Set) != nil ==> result != nil
+//@   ensures lock-released: forallI(l, forallS(k, lockHeld[l][k] == old(lockHeld[l][k])))
+//@   ensures other-keys-untouched: forallS(k, k != reqKey(c) ==> stVal[cfg.Storage][k] == old(stVal[cfg.Storage][k]) && (stHas[cfg.Storage][k] ==> old(stHas[cfg.Storage][k])))
+
+// ---------------------------------------------------------------------------------------------
+// New: the keep set is the lower-cased KeepResponseHeaders list (the handler looks lower(name) up in it).
+// ---------------------------------------------------------------------------------------------
+//@ func New
+//@   loop 1
+//@     invariant index-in-range: rangeindex < len(cfg.KeepResponseHeaders)
+//@     invariant keep-set-so-far: keepResponseHeadersMap != nil && forallS(s, indom(keepResponseHeadersMap, s) <==> exists(i, 0, rangeindex + 1, lower(cfg.KeepResponseHeaders[i]) == s))
+//@   ensures keep-set-is-lowercased-list: forallS(s, indom(keepResponseHeadersMap, s) <==> exists(i, 0, len(cfg.KeepResponseHeaders), lower(cfg.KeepResponseHeaders[i]) == s))
+
+// ---------------------------------------------------------------------------------------------
+// Configuration defaults. The default hooks are the closures stored in ConfigDefault by the package
+// initialiser (init$1: Next, init$2: KeyHeaderValidate); that ConfigDefault still holds them when New is
+// called is not checked (package variables are mutable).
+// ---------------------------------------------------------------------------------------------
+//@ func init$1
+//@   ensures default-next-skips-safe-methods: result <==> methodSafe(reqMethod(c, epoch))
+//@ func init$2
+//@   pure
+//@   ensures default-key-is-36-bytes: result == nil <==> len(k) == 36
+
+//@ func NewMemoryLock fresh
+//@   pure
+//@   ensures empty: result.keys != nil && forallS(k, !indom(result.keys, k))
+
+//@ func configDefault
+//@   modifies heap(H_memory_Config_GCInterval)   // the memory.Config literal passed to memory.New (a fresh temporary; the engine cannot see that)
+//@   ensures hooks-and-backends-set: len(config) >= 1 && ConfigDefault.Next != nil && ConfigDefault.KeyHeaderValidate != nil ==> result.Next != nil && result.KeyHeaderValidate != nil && result.Lock != nil && result.Storage != nil
+//@   ensures no-argument-is-default: len(config) == 0 ==> result.Next == ConfigDefault.Next && result.KeyHeaderValidate == ConfigDefault.KeyHeaderValidate && result.KeyHeader == ConfigDefault.KeyHeader && result.Lifetime == ConfigDefault.Lifetime && result.KeepResponseHeaders == ConfigDefault.KeepResponseHeaders && result.Lock != nil && result.Storage != nil
+//@   ensures user-next-kept: len(config) >= 1 ==> result.Next == ite(config[0].Next == nil, ConfigDefault.Next, config[0].Next)
+//@   ensures user-validation-kept: len(config) >= 1 ==> result.KeyHeaderValidate == ite(config[0].KeyHeaderValidate == nil, ConfigDefault.KeyHeaderValidate, config[0].KeyHeaderValidate)
+//@   ensures user-header-kept: len(config) >= 1 ==> result.KeyHeader == ite(config[0].KeyHeader == "", ConfigDefault.KeyHeader, config[0].KeyHeader)
+//@   ensures user-lifetime-kept: len(config) >= 1 ==> result.Lifetime == ite(config[0].Lifetime == 0, ConfigDefault.Lifetime, config[0].Lifetime)
+//@   ensures empty-keep-list-means-default: len(config) >= 1 ==> result.KeepResponseHeaders == ite(config[0].KeepResponseHeaders != nil && len(config[0].KeepResponseHeaders) == 0, ConfigDefault.KeepResponseHeaders, config[0].KeepResponseHeaders)
+//@   ensures user-backends-kept: len(config) >= 1 ==> (config[0].Lock != nil ==> result.Lock == config[0].Lock) && (config[0].Storage != nil ==> result.Storage == config[0].Storage)
+
+// ---------------------------------------------------------------------------------------------
+// MemoryLock: one countedLock per key in use; locked counts the goroutines between their increment in
+// Lock and their decrement in Unlock (holder + waiters), the entry is removed when the count returns to 0.
+// Mutual exclusion per key rests on all contenders using ONE mutex, i.e. on the entry of a key not being
+// removed or replaced while its count is positive.
+// What is checked here is the sequential specification of the two operations (the state at entry
+// stands for the state at the moment l.mu is acquired) plus the invariant every-entry-counted at every
+// release of l.mu. NOT mechanised (the engine has no rely/guarantee reasoning and no ghost updates inside
+// verified bodies): that between the critical sections of Unlock no other goroutine removes the entry --
+// it cannot, because the count still includes the caller (registration-counted / count-decremented are
+// the two facts that argument uses). For the same reason the protected state is not havocked at Lock:
+// mlSections is a dummy protected variable. Accesses outside l.mu are not detected by the engine.
+// Behavioural subtyping MemoryLock <: Locker (contracts above) is by this argument, not by the engine.
+// ---------------------------------------------------------------------------------------------
+//@ ghost mlSections int
+//@ macro entryCounted(l) = forallS(k, indom(l.keys, k) ==> l.keys[k] != nil && allocated(l.keys[k]) && l.keys[k].locked >= 1) && forallS(k1, forallS(k2, indom(l.keys, k1) && indom(l.keys, k2) && l.keys[k1] == l.keys[k2] ==> k1 == k2))
+
+//@ func (*MemoryLock).Lock
+//@   requires caller-holds-no-mutex: forallI(m, !held(m))
+//@   requires map-made: l.keys != nil
+//@   lock l.mu protects mlSections inv every-entry-counted: entryCounted(l)
+//@   ensures always-succeeds: result == nil
+//@   ensures holds-the-registered-mutex: indom(l.keys, key) && held(l.keys[key].mu)
+//@   ensures registration-counted: l.keys[key].locked == ite(old(indom(l.keys, key)), old(l.keys[key].locked), 0) + 1
+//@   ensures existing-entry-reused: old(indom(l.keys, key)) ==> l.keys[key] == old(l.keys[key])
+//@   ensures other-entries-untouched: forallS(k, k != key ==> (indom(l.keys, k) <==> old(indom(l.keys, k))) && l.keys[k] == old(l.keys[k]))
+
+//@ func (*MemoryLock).Unlock
+//@   requires caller-holds-only-the-key-mutex: !held(l.mu) && (indom(l.keys, key) ==> held(l.keys[key].mu))
+//@   lock l.mu protects mlSections inv every-entry-counted: entryCounted(l)
+//@   atcall @sync.(*Mutex).Lock: count-only-written-inside-sections: old(indom(l.keys, key)) ==> l.keys[key].locked == old(l.keys[key].locked)
+//@   ensures always-succeeds: result == nil
+//@   ensures unknown-key-is-noop: !old(indom(l.keys, key)) ==> forallS(k, (indom(l.keys, k) <==> old(indom(l.keys, k))) && l.keys[k] == old(l.keys[k]))
+//@   ensures releases-the-key-mutex: old(indom(l.keys, key)) ==> !held(old(l.keys[key]).mu)
+//@   ensures count-decremented: old(indom(l.keys, key)) && old(l.keys[key].locked) > 1 ==> indom(l.keys, key) && l.keys[key] == old(l.keys[key]) && l.keys[key].locked == old(l.keys[key].locked) - 1
+//@   ensures last-one-removes-the-entry: old(indom(l.keys, key)) && old(l.keys[key].locked) <= 1 ==> !indom(l.keys, key)
+//@   ensures other-entries-untouched: forallS(k, k != key ==> (indom(l.keys, k) <==> old(indom(l.keys, k))) && l.keys[k] == old(l.keys[k]))
